@@ -270,6 +270,15 @@ func (m *merger) val(a, b Value) Value {
 		if ok && a.Obj == b.Obj && pathEq(a.Path, b.Path) {
 			return a
 		}
+	case SymPtr:
+		b, ok := b.(SymPtr)
+		if ok && a.Obj == b.Obj && a.Off == b.Off && a.N == b.N && pathEq(a.Path, b.Path) {
+			if a.Idx == b.Idx {
+				return a
+			}
+			a.Idx = m.ctx.Ite(m.g, a.Idx, b.Idx)
+			return a
+		}
 	case MapRef:
 		b, ok := b.(MapRef)
 		if ok && a == b {
@@ -480,6 +489,8 @@ func (s *State) reach(v Value, live []bool) {
 	case Slice:
 		s.mark(v.Obj, live)
 	case Ptr:
+		s.mark(v.Obj, live)
+	case SymPtr:
 		s.mark(v.Obj, live)
 	case MapRef:
 		s.mark(v.Obj, live)
